@@ -4,9 +4,11 @@ From AJ Require Import Model.Base Model.Value Model.Utf Model.NumParse Model.Jso
 From AJ Require Import Spec.Rfc8259 Spec.ParseSpec Proofs.Lex Proofs.ParseSafe Proofs.ParseComplete Proofs.ParseDepth Proofs.GenAgree.
 From AJ Require Gen.Tables.
 From AJ Require Import Spec.Dialect Proofs.DialectSound.
+From AJ Require Proofs.NoMemory.
 Local Open Scope N_scope.
 
-(* RFC 8259 is inside the dialect: every such text within the limits is accepted with the value it denotes *)
+(* RFC 8259 is inside the dialect: every such text within the limits (nesting, 63-character numbers, strings and
+   keys of at most 65535 decoded bytes) is accepted with the value it denotes *)
 Theorem C10_rfc8259_accepted : forall cf, decode_unicode cf = true ->
   forall d i v, jtextD (num_den cf) d i v -> forall L, (d <= L)%nat ->
   j_err (json_run cf None L i) = Ok /\ j_doc (json_run cf None L i) = v.
@@ -62,7 +64,8 @@ Print Assumptions C10_source_agrees.
 (* ---- exactly the dialect.  Spec/Dialect.v defines the dialect as relations between a text and its value, independently
    of the parser: RFC 8259 plus comments (only when enabled), single-quoted strings, unquoted keys, lenient numbers (a
    token of at most 63 number characters that parseNumber accepts; NaN / Infinity spellings only when enabled), no
-   trailing commas, every container and string closed.  For every input made of bytes, every configuration and limit:
+   trailing commas, every container and string closed, every string and key of at most 65535 decoded bytes
+   (StringNode::maxLength).  For every input made of bytes, every configuration and limit:
    deserializeJson returns Ok with document v  IF AND ONLY IF  the input is insignificant bytes, then a text of the
    dialect denoting v nested at most L deep, then anything (after a number: end of input, NUL or whitespace). ---- *)
 Theorem C10_accepts_exactly_the_dialect : forall cf L i v, bytes256 i ->
@@ -85,6 +88,17 @@ Theorem C10_dialect_complete : forall cf L w t v rest d,
   j_err (json_run cf None L (w ++ t ++ rest)) = Ok /\ j_doc (json_run cf None L (w ++ t ++ rest)) = v.
 Proof. exact dialect_complete. Qed.
 Print Assumptions C10_dialect_complete.
+
+(* the string limit: a string of the dialect (either quote, any escape spelling, any configuration) that denotes
+   65536 bytes or more is read up to and including its closing quote, then refused with NoMemory *)
+Theorem C10_long_string_is_NoMemory : forall cf q body str, (q = 34 \/ q = 39) ->
+  dchars cf q 0 body str -> 65536 <= N.of_nat (length str) ->
+  forall L w rest, dws cf w ->
+    let o := json_run cf None L (w ++ ([q] ++ body ++ [q]) ++ rest) in
+    j_err o = NoMemory /\ j_doc o = JNull /\
+    reads (j_st o) = N.of_nat (length (w ++ [q] ++ body ++ [q])) /\ stream (j_st o) = rest.
+Proof. exact NoMemory.json_run_long_string. Qed.
+Print Assumptions C10_long_string_is_NoMemory.
 
 (* comments only when enabled: without the option the insignificant bytes are whitespace only *)
 Theorem C10_comments_only_when_enabled : forall cf L i,
